@@ -431,7 +431,7 @@ __fixup_fst(struct dseq_clo_s *clo)
 		old.d.u = tmp.d.u = (uint32_t)clo->dir;
 	}
 	date_neg_dur(clo->ite, clo->nite);
-	while (__in_range_p(tmp, clo)) {
+	while (__in_range_p(dt_fixup(tmp), clo)) {
 		old = tmp;
 		tmp = __seq_next(tmp, clo);
 	}
